@@ -102,4 +102,19 @@ MUTANTS = [
          old="        T![||] => Some((1, 2)),", new="        T![||] => Some((0, 2)),"),
     dict(name="kind-swap-syntax-kinds", prop="C12", units=["u_kind"], file="crates/parser/src/syntax.rs", expect=1,
          old="    Whitespace,\n    Comment,", new="    Comment,\n    Whitespace,"),
+    # ---- total mode (entry assertions)
+    dict(name="gram-assert-metered-again", prop="C04", units=["u_grammar"], file="crates/parser/src/file.rs", expect=1,
+         old="fn func(p: &mut Parser) {\n    assert!(p.at_unmetered(T![fn]));", new="fn func(p: &mut Parser) {\n    assert!(p.at(T![fn]));"),
+    dict(name="gram-assert-wrong-token", prop="C04", units=["u_grammar"], file="crates/parser/src/file.rs", expect=1,
+         old="fn struct_def(p: &mut Parser) {\n    assert!(p.at_unmetered(T![struct]));", new="fn struct_def(p: &mut Parser) {\n    assert!(p.at_unmetered(T![enum]));"),
+    dict(name="gram-caller-skips-check", prop="C04", units=["u_grammar"], file="crates/parser/src/file.rs", expect=1,
+         old="    if p.at(T!['{']) {\n        variant_list(p);\n    }", new="    variant_list(p);"),
+    dict(name="pattern-unreachable-back", prop="C04", units=["u_grammar"], file="crates/parser/src/pattern.rs", expect=1,
+         old="""        _ => {
+            let m = p.open();
+            p.error("expected a pattern");
+            p.close(m, MySyntaxKind::ErrorTree);
+            return None;
+        }
+    })""", new="        _ => unreachable!(),\n    })"),
 ]
